@@ -42,6 +42,17 @@ pub static PLANS: &[PropPlan] = &[PropPlan {
     ],
     real_vs_stub: "real: sonic-rs serializer, formatters, SIMD escaper, WriteExt impls for Vec/BytesMut/BufferedWriter/io::BufWriter/&mut/Box, Value/LazyValue/OwnedLazyValue/RawNumber Serialize impls; simulated: the sink (FaultySink), a user WriteExt whose reserved window ends at a PROT_NONE page, source strings ending 0..40 bytes before a PROT_NONE page, heap ledger; absent: clock, network",
 }, PropPlan {
+    prop: "C13",
+    level: "exploration",
+    sims: &[SimPlan { sim: "lazy", quick_runs: 400_000, thorough_runs: 6_000_000 }],
+    rule: "each run draws a well-formed document model-first (every JSON type incl. bare literals, escaped and unescaped strings, number- and literal-looking strings), renders it with drawn whitespace/escapes while recording every value's span, obtains lazy handles by drawn routes (get on str/slice/Bytes/FastStr/String, get_unchecked, get_many, array/object iterators, serde borrowed field, from_str::<LazyValue>, from_str::<OwnedLazyValue>, From<LazyValue>, to_lazyvalue, owned struct field, From<bool>/From<()>), then runs a drawn history of 2-24 steps over a pool of handles: full accessor reads, child handles, clone, borrowed-to-owned, Value::try_from, take, as_array_mut/as_object_mut + Vec operations, get_mut / pointer_mut + assign or take, drop; after every step every live handle is re-serialized (to_string, to_vec, Display, embedded in a struct) and compared with its model (raw text verbatim for untouched parts). Non-trivial = at least one mutation happened; distinct = distinct hash of the rendered trace",
+    assumptions: &[
+        "documents have no duplicate keys; number literals are ones whose classification is unambiguous (C07 owns the corner cases)",
+        "a clone of an owned lazy value whose cache may have been loaded is allowed to serialize either as its raw text or as its one-level parsed form (children verbatim, scalars by value); everything else is compared byte for byte",
+        "as_raw_number on a number may be Some(literal) or None (the DOM only keeps raw numbers on request); on anything else it must be None",
+    ],
+    real_vs_stub: "real: sonic-rs parser skip/get paths, LazyValue, OwnedLazyValue, LazyArray/LazyObject, serializer raw-emission path, serde glue; simulated: heap bookkeeping only (single simulated caller); absent: threads (C18 covers them), clock, network, disk",
+}, PropPlan {
     prop: "C16",
     level: "exploration",
     sims: &[SimPlan { sim: "arena", quick_runs: 150_000, thorough_runs: 2_500_000 }],
